@@ -93,7 +93,7 @@ pub struct Memory {
 }
 
 impl Memory {
-//@@fn file=memory.rs scope="impl<R: RefCounter, PR: PathRefCounter, H: Header> Memory<R, PR, H> {" name=clear xlate=plain st=mut props=C17,C16,C08
+//@@fn file=memory.rs scope="impl<R: RefCounter, PR: PathRefCounter, H: Header> Memory<R, PR, H> {" name=clear xlate=plain st=mut props=C17,C16,C08,C15
 //@subst /self\.header\(\)\.load_min_segment_size\(\)/ => st.hdr.min_segment_size
 //@subst /let header_ptr = self\.ptr\.add\(header_ptr_offset\);\s*let header = header_ptr\.cast::<H>\(\);\s*header\.write\((.+?)\);/ => st.write_header(\1);
 //@subst /Either::Right\((H::new\(.+?\))\),/ => { st.write_header(\1); Either::Right(Ghost(0int)) },
@@ -110,8 +110,8 @@ impl Memory {
     old(st)@.lo == old(self).data_offset as int,
   ensures
     final(self).data_offset == old(self).data_offset && final(self).reserved == old(self).reserved && final(self).cap == old(self).cap
-      && final(self).unify == old(self).unify && final(self).ptr == old(self).ptr, // [C17 C16]
-    final(st)@.allocated == final(self).data_offset as int, // [C17]
+      && final(self).unify == old(self).unify && final(self).ptr == old(self).ptr, // [C17 C16 C15]
+    final(st)@.allocated == final(self).data_offset as int, // [C17 C15]
     final(st)@.discarded == 0, // [C17]
     final(st)@.min_seg == old(st)@.min_seg, // [C17]
     final(st)@.sentinel == enc(SENTINEL_SEGMENT_NODE_SIZE, SENTINEL_SEGMENT_NODE_OFFSET), // [C17 C10]
@@ -191,6 +191,40 @@ pub const CURRENT_VERSION: u16 = 0;
     !create_new && !old(st).valid@ ==> r.is_err() && !final(st).wrote@, // [C09]
     !create_new && old(st).valid@ ==> r.is_ok(), // [C09]
     create_new ==> r.is_ok(), // [C09]
+//@@end
+
+// ---- C09: a file too small to contain the header prefix is refused before anything else happens ------------------------
+pub struct OffsetOpts { pub offset: u64 }
+pub fn invalid_input(msg: &'static str) -> IoError { IoError {} }
+pub fn sub_or_zero(a: u64, b: u64) -> (r: u64) ensures r == (if a >= b { a - b } else { 0 }) { if a >= b { a - b } else { 0 } }
+
+//@@fn file=memory.rs name=header_meta props=C09,C16
+//@contract
+  requires
+    layout_ok::<H>(), size_of::<H>() <= 0x1000_0000,
+    reserved <= u32::MAX as usize - 0x2000_0000,
+  ensures
+    r.1 as int == spec_data_offset::<H>(reserved as int, unify), // [C16 C09]
+    r.0 as int == spec_header_offset::<H>(reserved as int, unify), // [C16]
+//@@end
+
+//@@frag file=memory.rs scope="impl<R: RefCounter, PR: PathRefCounter, H: Header> Memory<R, PR, H> {" fn=map_mut_in from="/^\s*if !create_new \{\s*$/" name=map_mut_in__size_check params="create_new: bool, file_size: u64, opts: OffsetOpts, reserved: usize" ret="Result<(), IoError>" result="Ok(())" props=C09
+//@subst /(\w+)\.checked_sub\((.+?)\)\.unwrap_or_default\(\)/ => sub_or_zero(\1, \2)
+//@subst /\bH\b/ => Header
+//@contract
+  requires layout_ok::<Header>(), size_of::<Header>() <= 0x1000, reserved <= u32::MAX as usize - 0x4000_0000,
+  ensures
+    !create_new ==> (r.is_err() <==> (if file_size >= opts.offset { file_size as int - opts.offset as int } else { 0int }) < spec_data_offset::<Header>(reserved as int, true)), // [C09]
+    create_new ==> r.is_ok(),
+//@@end
+
+//@@frag file=memory.rs scope="impl<R: RefCounter, PR: PathRefCounter, H: Header> Memory<R, PR, H> {" fn=map_in from="/let \(_, prefix_size\) = header_meta::<H>\(reserved as usize, true\);/" stmts=2 name=map_in__size_check params="size: u64, opts: OffsetOpts, reserved: u32" ret="Result<(), IoError>" result="Ok(())" props=C09
+//@subst /(\w+)\.checked_sub\((.+?)\)\.unwrap_or_default\(\)/ => sub_or_zero(\1, \2)
+//@subst /\bH\b/ => Header
+//@contract
+  requires layout_ok::<Header>(), size_of::<Header>() <= 0x1000, reserved <= u32::MAX - 0x4000_0000,
+  ensures
+    r.is_err() <==> (if size >= opts.offset { size as int - opts.offset as int } else { 0int }) < spec_data_offset::<Header>(reserved as int, true), // [C09]
 //@@end
 
 } // verus!
